@@ -8,7 +8,7 @@ from . import common as C
 from .exprs import And, Assert, Bt, Call, Concat, Cond, Group, JoinL, JoinR, Or, Str, Var, pr
 
 NAMES = ["a", "b", "c", "d", "e", "f", "g", "h", "HEX", "A_UP", "zz"]
-STRS = ["", "x", "ab", "a b", " pad ", "Ab-C", "a/b", "foo.bar", "aaa", "it's", "fooBar", "HTTPServer x2Y"]
+STRS = ["", "x", "ab", "a b", " pad ", "Ab-C", "a/b", "foo.bar", "aaa", "it's", "fooBar", "HTTPServer x2Y", "o{{{{c", "{{", "}}"]
 
 
 PATHS = ["a/b.c", "/x/y.tar.gz", "./d/", "..", ".rc", "a//b/../c.", "/", "dir/.hidden.txt", "p/q/", "n.o/file", "a/./b/", "up/../../z.z"]
